@@ -118,7 +118,7 @@ func (d *Driver) NewLLRPDevice(name string, address net.Addr, opState contract.O
 			cancel()
 			rmvCtx, rmvCncl := context.WithTimeout(context.Background(), shutdownGrace)
 			defer rmvCncl()
-			d.removeDevice(rmvCtx, name)
+			d.removeThisDevice(rmvCtx, name, l)
 		}()
 
 		d.lc.Debug("Starting Reader management.", "device", name)
